@@ -392,3 +392,83 @@ def rebind(module_name, **names):
                 mod.__dict__.pop(k, None)
             else:
                 mod.__dict__[k] = v
+
+
+# ---------------------------------------------------------------------------
+# `datetime` module shim for code that calls C classmethods of the real classes (date.fromordinal,
+# datetime.combine, datetime.fromordinal): CrossHair does not intercept those, and the real ones reject /
+# realise its model objects.  The shim forwards construction to CrossHair's models and implements the
+# classmethods in their lazy ordinal-backed form.
+
+def make_datetime_shim(anchor_year=None):
+    import datetime as real
+    from crosshair.libimpl import datetimelib as dl
+    from crosshair.tracers import NoTracing
+
+    def _anchor(d):
+        ymd = getattr(d, "_ymd", None)
+        if ymd is not None:
+            return ymd[0]
+        return getattr(d, "_verif_anchor", None)
+
+    class _Meta(type):
+        def __instancecheck__(cls, obj):
+            return isinstance(obj, cls._real)
+
+        def __call__(cls, *a, **k):
+            return cls._model(*a, **k)
+
+        def __getattr__(cls, name):
+            return getattr(cls._real, name)
+
+    class date(metaclass=_Meta):
+        _real = real.date
+        _model = dl.date
+
+        @staticmethod
+        def fromordinal(n):
+            d = dl._date_from_ordinal(n)
+            if anchor_year is not None:
+                d._verif_anchor = anchor_year
+            return d
+
+    class datetime(metaclass=_Meta):
+        _real = real.datetime
+        _model = dl.datetime
+
+        @staticmethod
+        def fromordinal(n):
+            d = dl._datetime_from_ordinal(n, 0, 0, 0, 0, None)
+            if anchor_year is not None:
+                d._verif_anchor = anchor_year
+            return d
+
+        @staticmethod
+        def combine(d, t, tzinfo=True):
+            tz = t.tzinfo if tzinfo is True else tzinfo
+            if getattr(d, "_ymd", None) is not None:
+                y, m, dd = d._ymd
+                r = dl._datetime_skip_construct(y, m, dd, t.hour, t.minute, t.second, t.microsecond, tz)
+            else:
+                r = dl._datetime_from_ordinal(d.toordinal(), t.hour, t.minute, t.second, t.microsecond, tz)
+                a = _anchor(d)
+                if a is not None:
+                    r._verif_anchor = a
+            r._fold = 0
+            r._hashcode = -1
+            return r
+
+    class time(metaclass=_Meta):
+        _real = real.time
+        _model = dl.time
+
+    class timedelta(metaclass=_Meta):
+        _real = real.timedelta
+        _model = dl.timedelta
+
+    class _Shim(object):
+        pass
+    sh = _Shim()
+    sh.date, sh.datetime, sh.time, sh.timedelta = date, datetime, time, timedelta
+    sh.MAXYEAR, sh.MINYEAR, sh.tzinfo, sh.timezone = real.MAXYEAR, real.MINYEAR, real.tzinfo, real.timezone
+    return sh
